@@ -32,7 +32,7 @@ CFG = dict(
 
 def classify(line):
     """the scripted witness cases carry the name of the finding they are the minimal replay of"""
-    for t in line.get("tags", []):
+    for t in line.get("tags") or []:
         if t.startswith("witness:"):
             return t[len("witness:"):]
     return None
